@@ -43,7 +43,7 @@ func (P) Engine() string { return "E1" }
 
 func (P) Describe() harness.Description {
 	return harness.Description{
-		MustHit: []string{"same_instant_timers_ordered_by_seed", "node_filtered", "filter_capped_by_percentage", "node_half_open", "node_recycled", "node_kept_after_success", "active_recovery_check_ran"},
+		MustHit: []string{"request_for_a_resource_without_outlier_rule", "same_instant_timers_ordered_by_seed", "node_filtered", "filter_capped_by_percentage", "node_half_open", "node_recycled", "node_kept_after_success", "active_recovery_check_ran"},
 		Level:   "exploration",
 		Rule: "case = (1-12 nodes, MaxEjectionPercent k/100 or k/1000 incl. 0 and 1, active recovery on (scripted RecoveryCheckFunc) or off, recycle interval 1-5 s, recovery interval, per-node breaker rule (error count / error ratio, retry timeout 200-3000 ms, probe number 0-1); 20-120 ops: request (choose a node, duration, success or failure), advance fake time). Chain = default slots + the real outlier slots; the recycler / retryer workers, their channels and timers live inside the bubble; after every step the driver waits for quiescence. " +
 			"Oracle at every request: FilterNodes has no duplicates and is a subset of the nodes the per-node reference breaker rejects now; |FilterNodes| <= floor(k*n/den) in integer arithmetic with n = known nodes; HalfOpenNodes == nodes in passive half-open probing (none with active recovery); a node that completed a request successfully since it was scheduled for recycling is still known after the recycle interval, and no unknown node appears. " +
@@ -81,7 +81,11 @@ func (P) Gen(rng *sim.Rng, tier string) *harness.Case {
 	}
 	var ops []harness.Op
 	for n := rng.Range(20, 120); len(ops) < n; {
-		if rng.Chance(0.7) {
+		if rng.Chance(0.08) {
+			// a request for another resource, one without an outlier rule, through the same slots (the next to
+			// use the pooled context of an earlier request)
+			ops = append(ops, harness.Op{K: "other"})
+		} else if rng.Chance(0.7) {
 			ops = append(ops, harness.Op{K: "req", R: rng.Intn(cfg.Nodes), N: uint64([]int{0, 0, 1, 5, 20}[rng.Intn(5)]), F: rng.Chance(0.55)})
 		} else {
 			ops = append(ops, harness.Op{K: "sleep", N: []uint64{1, 50, 100, 199, 200, 201, 500, 1000, 1001, 2000, 3000, 5000, 6000}[rng.Intn(13)]})
@@ -245,6 +249,23 @@ func (P) Exec(c *harness.Case) *harness.Outcome {
 		case "sleep":
 			harness.Call(o, "C20.panic", step, func() { tq.AdvanceMs(op.N, drain) })
 			if o.Failed() || !processTimers(step) {
+				return o
+			}
+		case "other":
+			var filter, half []string
+			harness.Call(o, "C20.panic", step, func() {
+				if e, _ := sentinel.Entry("res-without-outlier-rule", sentinel.WithSlotChain(sc)); e != nil {
+					filter = append([]string{}, e.Context().FilterNodes()...)
+					half = append([]string{}, e.Context().HalfOpenNodes()...)
+					e.Exit()
+				}
+			})
+			if o.Failed() {
+				return o
+			}
+			o.Probe("request_for_a_resource_without_outlier_rule")
+			if len(filter) != 0 || len(half) != 0 {
+				o.Fail("C20.nodes-reported-for-resource-without-rule", step, "a request for a resource that has no outlier rule and no known node was told to filter %v (half-open %v): the lists of an earlier request for another resource", filter, half)
 				return o
 			}
 		case "req":
